@@ -21,6 +21,7 @@ type Clause struct {
 	Tier   string // "" = always, "thorough" = only in thorough tier
 	Internal bool // mentions locals of the function: proved, but not exported to callers
 	Cumulative bool // the proof of this clause may use the earlier ensures clauses of the same contract
+	CheckOnly bool // at-call assertion that is checked but not added to what is known afterwards (quantified clauses that would burden every later query)
 }
 
 type LetDef struct {
@@ -227,6 +228,10 @@ func (cs *ContractSet) loadFile(path, repo string) error {
 			if strings.HasPrefix(s, "cumulative ") {
 				cl.Cumulative = true
 				s = strings.TrimSpace(strings.TrimPrefix(s, "cumulative "))
+			}
+			if strings.HasPrefix(s, "checkonly ") {
+				cl.CheckOnly = true
+				s = strings.TrimSpace(strings.TrimPrefix(s, "checkonly "))
 			}
 			if strings.HasPrefix(s, "thorough ") {
 				cl.Tier = "thorough"
